@@ -98,6 +98,8 @@ class Walker:
         for q in reversed(parents):
             if q.get('kind') in ('ParenExpr',) or (q.get('kind') == 'ImplicitCastExpr' and q.get('castKind') in ('IntegralCast', 'NoOp')):
                 child = q; continue
+            if q.get('kind') == 'ConditionalOperator' and len(q.get('inner') or []) == 3 and not (q['inner'][0] is child or self._contains(q['inner'][0], cast)):
+                child = q; continue       # the promoted value is one of the two results of ?: - its consumer is the consumer of the whole expression
             p = q; break
         site = dict(file=self.relfile(), line=self.line, func=self.func)
         if p is None:
